@@ -68,7 +68,11 @@ theorem moveBlock_correct (m : ReadMode) (nprocs unit : Nat) (hp : 1 ≤ nprocs)
   have := c1 (dst + i) (by omega) (by omega) (by omega)
   rw [this]; congr 1; omega
 
-example : (1 ≤ 3) ∧ (1 ≤ 4) ∧ (2 ≤ 7) := by decide   -- nprocs 3, unit 4, src 2 ≤ dst 7: hypotheses are satisfiable
+/-- non-vacuity: 3 processes, MOVE_UNIT 4, 20 bytes moved up by 5 inside a 30-byte file (two rounds,
+    overlapping source and destination), short-count reads -/
+example (f : File) (hf : f.length = 30) :
+    ∀ i, i < 20 → rd (moveBlock .short 3 4 f 7 2 20) (7 + i) = rd f (2 + i) :=
+  fun i hi => (moveBlock_correct .short 3 4 (by decide) (by decide) f 7 2 20 (by decide)).1 i hi (by omega)
 
 /-! ### record section -/
 
@@ -135,7 +139,12 @@ theorem moveRecords_preserves (m : ReadMode) (nprocs unit : Nat) (hp : 1 ≤ npr
   · rw [if_neg he]
     exact rd_moveRecsLoop m nprocs unit hp hu newOff oldOff newRs oldRs hoff hrs nrecs f
 
-example : (3 : Nat) ≤ 8 ∧ (40 : Nat) ≤ 64 := by decide  -- e.g. recsize 3 (one record variable, unpadded) → 8, section 40 → 64
+/-- non-vacuity: a single 3-byte record variable (unpadded records) gets a companion, recsize 3 → 8,
+    record section 40 → 64, 5 records, 2 processes, MOVE_UNIT 2, full-count reads with arbitrary junk -/
+example (junk : Nat → UInt8) (f : File) (hf : f.length = 55) :
+    ∀ r k, r < 5 → k < 3 → rd (moveRecords (.full junk) 2 2 f 64 40 8 3 5) (64 + r * 8 + k) = rd f (40 + r * 3 + k) :=
+  fun r k hr hk => (moveRecords_preserves (.full junk) 2 2 (by decide) (by decide) f 64 40 8 3 5 (by decide) (by decide)).1
+    r k hr hk (by omega)
 
 /-! ### fixed-size variables -/
 
